@@ -144,6 +144,7 @@ func vPackLimited(m *Msg, hasOpt bool, opt *RawResource) {
 // additional position, any limit.
 func VerifH_C09_Truncate_S16() {
 	verifrt.Unwind(60)
+	verifrt.Expect("over-limit,truncated")
 	sh := verifrt.Shard()
 	m := NewMsg()
 	m.Header = vHeader()
@@ -170,6 +171,7 @@ func VerifH_C09_Truncate_S16() {
 // without OPT), every limit: the accounting of the OPT reservation and the minimum size is exact.
 func VerifH_C09_Boundary_S8() {
 	verifrt.Unwind(60)
+	verifrt.Expect("over-limit,truncated")
 	sh := verifrt.Shard()
 	m := NewMsg()
 	m.Header = vHeader()
@@ -186,5 +188,42 @@ func VerifH_C09_Boundary_S8() {
 		opt = vRaw("opt", TypeOPT, verifrt.Choose("opt.len", 2)*3, 1)
 		m.Additionals = append(m.Additionals, opt)
 	}
+	vPackLimited(m, hasOpt, opt)
+}
+
+// VerifH_C09_TruncateSharedNames: truncation in the presence of NAME COMPRESSION state: every record has a non-root
+// owner name (one or two labels of arbitrary octets, so any two of them may be equal, share a suffix, or differ), the
+// middle answer is large (300 octets of RDATA) so that for many limits it is the one left out while the records after it
+// still fit — whatever the packer remembered about a record it did not keep must not leak into the records it did keep.
+// Same oracle as Truncate: reference decoder, counts, TC, ordered unmodified subsequence, own decoder.
+func VerifH_C09_TruncateSharedNames_S4() {
+	verifrt.Unwind(80)
+	verifrt.Expect("over-limit,truncated")
+	sh := verifrt.Shard()
+	shapes := [][]int{{1}, {1, 1}}
+	nm := func(tag string, k int) Name { return vName(tag, shapes[k]) }
+	raw := func(tag string, typ Type, rdlen int, shape int) *RawResource {
+		r := vRaw(tag, typ, rdlen, 1)
+		ReleaseName(r.Name)
+		r.Name = nm(tag+".owner2", shape)
+		return r
+	}
+	m := NewMsg()
+	m.Header = vHeader()
+	q := vQuestion("q", 1)
+	ReleaseName(q.Name)
+	q.Name = nm("q.name2", 0)
+	m.Questions = append(m.Questions, q)
+	m.Answers = append(m.Answers, raw("an0", 16, 3, sh%2))
+	m.Answers = append(m.Answers, raw("an1", 17, 480, (sh/2)%2))
+	m.Answers = append(m.Answers, raw("an2", 18, 3, (sh/2)%2))
+	m.Authorities = append(m.Authorities, raw("ns0", 99, 0, verifrt.Choose("ns0.shape", 2)))
+	hasOpt := verifrt.Bool("hasopt")
+	var opt *RawResource
+	if hasOpt {
+		opt = vRaw("opt", TypeOPT, 0, 1)
+		m.Additionals = append(m.Additionals, opt)
+	}
+	// keep the limit in the interesting region: around the size at which the large answer stops fitting
 	vPackLimited(m, hasOpt, opt)
 }
